@@ -212,8 +212,8 @@ func TestTqvWitness(t *testing.T) {
 		}
 	}
 	out := map[string]interface{}{
-		"obligation": "cmds/server/loader.Loader.build/bounded.scoping",
-		"scenario":   "exhaustive: ordered selections of 1..3 scopes x 2 users x scope subsets x 4 authenticator settings, real build() and config.Provider",
+		"obligation":     "cmds/server/loader.Loader.build/bounded.scoping",
+		"scenario":       "exhaustive: ordered selections of 1..3 scopes x 2 users x scope subsets x 4 authenticator settings, real build() and config.Provider",
 		"configurations": n, "mismatches": bads, "violated": len(bads) > 0 || n != 15360,
 	}
 	b, _ := json.Marshal(out)
